@@ -123,6 +123,23 @@ DoneMeansAll         == rstate = "done" => delivered = N
 \* a call that reports "more" has delivered at least one item
 MoreMeansProgress    == \A i \in 1..Len(hist) : hist[i][4] => hist[i][3] > 0
 
+(* ---- writer side: the calls a caller can make to write N items, and the blocks they must put on the wire.                 *)
+(* A call is the number of items it passes: One (= 100) for the single-item overload, k >= 0 for the batch overload.  An empty batch *)
+(* is a legal call; it adds no items, so it must add nothing to the wire - in particular not a block of length 0, which is   *)
+(* the end-of-stream marker.  (WriteBatch above starts at k = 1 for the same reason.)                                       *)
+One == 100
+RECURSIVE WriterScripts(_, _)
+WriterScripts(n, e) ==            \* n items still to write, at most e empty batches
+  (IF n = 0 THEN {<<>>} ELSE {})
+  \cup (IF n > 0 THEN { <<One>> \o t : t \in WriterScripts(n - 1, e) } ELSE {})
+  \cup UNION { { <<k>> \o t : t \in WriterScripts(n - k, e) } : k \in 1..n }
+  \cup (IF e > 0 THEN { <<0>> \o t : t \in WriterScripts(n, e - 1) } ELSE {})
+BlocksOf(script) == [i \in 1..Len(SelectSeq(script, LAMBDA k : k # 0)) |->
+                       LET k == SelectSeq(script, LAMBDA x : x # 0)[i] IN IF k = One THEN 1 ELSE k] \o <<0>>
+WriterCases == { [script |-> sc, wire |-> BlocksOf(sc)] : sc \in { x \in WriterScripts(N, 2) : \E i \in 1..Len(x) : x[i] = 0 } }
+ASSUME \A w \in WriterCases : /\ w.wire[Len(w.wire)] = 0 /\ \A i \in 1..(Len(w.wire) - 1) : w.wire[i] > 0
+ASSUME \A w \in WriterCases : PrintT(<<"CASE", ToJson([writer_script |-> w.script, wire |-> w.wire])>>)
+
 \* export of completed behaviours: the partition written and the reader calls made
 Export == rstate = "done" => PrintT(<<"CASE", ToJson([wire |-> wire, calls |-> hist])>>)
 =============================================================================
